@@ -676,6 +676,8 @@ func checkC02(c *Ctx, r *Report) {
 		})
 	}
 	c.checkRegisteredMapWriters(r, "R4")
+	// R5: the REGISTER preceding a QoS 0 PUBLISH needs a message ID that is not in use
+	c.checkFreeIDSearch(r, "R5", "gateway")
 }
 
 // returnsSyncMapKey: function whose first result is assigned from the key of a
